@@ -532,7 +532,7 @@ from bfg9000.build_inputs import Regenerating
 
 class LoadToolchain(Contract):
     target = 'bfg9000/build.py::load_toolchain'
-    properties = ('C09',)
+    properties = ('C09', 'C08')
 
     def cases(self):
         return [m.name for m in Regenerating]
